@@ -190,6 +190,7 @@ func specInScope(stack []scope, n int, s scope) bool {
 //
 //@ func (*Parser).evaluateSubscript
 //@   ensures[C06] typed: err == nil ==> specTyped(result0)
+//@   ensures[C03,C04] end-index-only-for-ranges-as-end-minus-one: err == nil && isType(result0, "parser.StringSubscript") && asType(result0, "parser.StringSubscript").endIndex != nil ==> isType(asType(result0, "parser.StringSubscript").endIndex, "parser.BinaryOperation") && asType(asType(result0, "parser.StringSubscript").endIndex, "parser.BinaryOperation").operator == "-" && asType(asType(result0, "parser.StringSubscript").endIndex, "parser.BinaryOperation").right == specIntLit(1)
 //
 //@ func (*Parser).evaluateSliceInstantiation
 //@   loop 1 invariant[C06] elements-so-far: forall(k, 0, len(values), specTyped(values[k]) && values[k].ValueType().Equals(NewValueType(res(evaluateValueType, 0, 0).dataType, false)))
@@ -255,3 +256,5 @@ func specInScope(stack []scope, n int, s scope) bool {
 //@   ensures[C09] unknown-alias-finds-nothing: global && len(strings.TrimSpace(prefix)) > 0 && !has(c.imports, strings.TrimSpace(prefix)) ==> !result1
 
 func asExprFromCall(c Call) Expression { return c }
+
+func specIntLit(v int) Expression { return IntegerLiteral{value: v} }
